@@ -7,7 +7,7 @@ Import ListNotations.
 Open Scope Z_scope.
 
 Definition kernel_run (s : session) : tree * list mev :=
-  run true 0 (s_da s) (s_db s) (s_lv s) (z_init (s_lv s)) (s_a s) (s_b s).
+  run true 0 (s_wt s) (s_da s) (s_db s) (s_lv s) (z_init (s_lv s)) (s_a s) (s_b s).
 
 Definition counts_ev (evs : list mev) : Z * Z * Z :=
   (cnt (is_cnt 0) evs, cnt (is_cnt 1) evs, cnt (is_cnt 2) evs).
@@ -21,15 +21,17 @@ Definition iters_ev (s : session) (evs : list mev) : list (option Z) :=
 
 (* what is observed of a complete session, whatever ran before it *)
 Definition obs_closed (s : session) : V :=
-  c15_obs (fst (run false 0 (s_da s) (s_db s) (s_lv s) (z_init (s_lv s)) (s_a s) (s_b s)))
+  c15_obs (fst (run false 0 (s_wt s) (s_da s) (s_db s) (s_lv s) (z_init (s_lv s)) (s_a s) (s_b s)))
           (fst (kernel_run s)) (counts_ev (snd (kernel_run s))) (iters_ev s (snd (kernel_run s))).
 
-Lemma obs_from_closed m s : s_end s = true -> obs_from m s = obs_closed s.
+Lemma obs_from_closed m s :
+  s_end s = true -> obs_from m s = if session_fails s then Verr 3 else obs_closed s.
 Proof.
-  intros Hend. unfold obs_from, obs_closed, run_session, kernel_run.
+  intros Hend. unfold obs_from. destruct (session_fails s); [reflexivity|].
+  unfold obs_closed, run_session, kernel_run.
   destruct (session_start_facts m s) as [Hc [_ [_ [Hm [Ha [Hu _]]]]]]. cbv zeta in *.
   rewrite Hc, Hend.
-  destruct (run true 0 (s_da s) (s_db s) (s_lv s) (z_init (s_lv s)) (s_a s) (s_b s)) as [z evs] eqn:Er.
+  destruct (run true 0 (s_wt s) (s_da s) (s_db s) (s_lv s) (z_init (s_lv s)) (s_a s) (s_b s)) as [z evs] eqn:Er.
   cbn [fst snd]. f_equal.
   - unfold counts_of, counts_ev.
     destruct (apply_counts evs (session_start m s)) as [H1 [H2 H3]].
@@ -88,7 +90,7 @@ Proof.
   repeat split.
   - apply run_cnt_leafs; auto.
   - apply run_cnt_leafs; auto.
-  - destruct (run_ref (s_da s) (s_db s) (s_lv s) 0 (z_init (s_lv s)) (s_a s) (s_b s) Hlv Ha Hb
+  - destruct (run_ref (s_wt s) (s_da s) (s_db s) (s_lv s) 0 (z_init (s_lv s)) (s_a s) (s_b s) Hlv Ha Hb
                 (zok_default _)) as [_ [_ Hd]].
     rewrite Hd. apply ref_adds_ext. apply zval_init.
 Qed.
@@ -100,16 +102,20 @@ Lemma output_ref s :
       (ref_final (fun _ => 0) (spec_trace (s_da s) (s_db s) (s_lv s) (s_a s) (s_b s))).
 Proof.
   intros Hwf. destruct (kernel_wf_ok _ _ _ Hwf) as [Hlv [Ha Hb]]. unfold kernel_run.
-  destruct (run_ref (s_da s) (s_db s) (s_lv s) 0 (z_init (s_lv s)) (s_a s) (s_b s) Hlv Ha Hb
+  destruct (run_ref (s_wt s) (s_da s) (s_db s) (s_lv s) 0 (z_init (s_lv s)) (s_a s) (s_b s) Hlv Ha Hb
               (zok_default _)) as [_ [Hv _]].
   intros p. rewrite Hv. apply ref_final_ext. apply zval_init.
 Qed.
 
-Lemma model_meets_spec c : c15_wf c = true -> c15_holds c (c15_model c) = true.
+Lemma region0 c : c15_region c = 0 -> session_fails (k_final c) = false.
+Proof. unfold c15_region. destruct (session_fails (k_final c)); [discriminate | reflexivity]. Qed.
+
+Lemma model_meets_spec c :
+  c15_wf c = true -> c15_region c = 0 -> c15_holds c (c15_model c) = true.
 Proof.
-  intros Hwf. unfold c15_holds. rewrite Hwf. cbn [andb].
-  unfold c15_wf in Hwf. rewrite !andb_true_iff in Hwf. destruct Hwf as [[Hk Hend] _].
-  unfold c15_model. rewrite obs_from_closed by auto.
+  intros Hwf Hreg. apply region0 in Hreg. unfold c15_holds. rewrite Hwf. cbn [andb].
+  unfold c15_wf in Hwf. rewrite !andb_true_iff in Hwf. destruct Hwf as [Hk Hend].
+  unfold c15_model. rewrite obs_from_closed by auto. rewrite Hreg.
   unfold obs_closed, c15_obs, V_counts, counts_ev. cbn [fst snd].
   destruct (counts_spec _ Hk) as [H0 [H2 H1]]. cbv zeta in *.
   rewrite (iters_ev_spec _ Hk), H0, H2, H1.
@@ -117,13 +123,42 @@ Proof.
   rewrite !V_eqb_refl, !Z.eqb_refl. reflexivity.
 Qed.
 
+(* in the region of the known finding the observation is the error, and the property fails *)
+Lemma model_region1 c :
+  s_end (k_final c) = true -> c15_region c = 1 ->
+  c15_model c = Verr 3 /\ c15_holds c (c15_model c) = false.
+Proof.
+  intros Hend Hreg. unfold c15_region in Hreg.
+  destruct (session_fails (k_final c)) eqn:Ef; [|discriminate].
+  assert (c15_model c = Verr 3) as ->.
+  { unfold c15_model. rewrite obs_from_closed by auto. rewrite Ef. reflexivity. }
+  split; [reflexivity|]. unfold c15_holds. apply andb_false_r.
+Qed.
+
+(* the region is empty when the output has a declared shape or no populate_write_0 trace is
+   registered: there every case holds *)
+Lemma no_write_trace_region0 c :
+  s_zshape (k_final c) = true \/ forallb (fun k => negb (Z.eqb (snd k) 4)) (s_traces (k_final c)) = true ->
+  c15_region c = 0.
+Proof.
+  intros H. unfold c15_region, session_fails.
+  rewrite cnt_zero_existsb; [reflexivity|]. apply run_no_fail. intros q. unfold s_wt.
+  destruct H as [-> | H]; [reflexivity|].
+  apply andb_false_iff. right.
+  induction (s_traces (k_final c)) as [|k ks IH]; cbn [existsb forallb] in *; auto.
+  apply andb_true_iff in H. destruct H as [Hk Hks]. rewrite (IH Hks), orb_false_r.
+  unfold key_eqb. cbn [fst snd]. apply negb_true_iff in Hk.
+  destruct (Z.eqb_spec 4 (snd k)); [|apply andb_false_r].
+  rewrite Z.eqb_neq in Hk. congruence.
+Qed.
+
 (* the output tensor of a session, started in any state, is the output with collection off *)
 Lemma session_transparent m s :
-  fst (fst (run_session m s)) = fst (run false 0 (s_da s) (s_db s) (s_lv s) (z_init (s_lv s)) (s_a s) (s_b s)).
+  fst (fst (run_session m s)) = fst (run false 0 (s_wt s) (s_da s) (s_db s) (s_lv s) (z_init (s_lv s)) (s_a s) (s_b s)).
 Proof.
   unfold run_session. destruct (session_start_facts m s) as [Hc _]. cbv zeta in Hc. rewrite Hc.
   rewrite <- run_transparent.
-  destruct (run true 0 (s_da s) (s_db s) (s_lv s) (z_init (s_lv s)) (s_a s) (s_b s)). reflexivity.
+  destruct (run true 0 (s_wt s) (s_da s) (s_db s) (s_lv s) (z_init (s_lv s)) (s_a s) (s_b s)). reflexivity.
 Qed.
 
 Lemma session_iters_exact m s q :
